@@ -37,6 +37,8 @@ MC_WORDS = mcc('MC_Words', 'MC_Words', invariants='Inv_Greedy Inv_Width')
 
 MC_TABLE = mcc('MC_Block', 'MC_Table', invariants='Inv_C02_Step Inv_C03_Step Inv_C09_Balanced Inv_C01 Inv_Alloc Inv_P_C02 Inv_P_C03 Inv_P_C05 Inv_P_C06')
 
+MC_API = mcc('MC_Api', 'MC_Api', invariants='Inv_P_C10 Inv_LiveTreesClean')
+
 # property -> plan
 PLANS = {
     'C02': dict(
@@ -125,6 +127,14 @@ PLANS = {
         rule='as C05 without nesting; every non-empty cell is filled with copies of its own unique character, so that the strip (display columns) and the lines of every cell can be read off the output; MC additionally checks on every table of the scope that the column allocation fits the width, never starves a column that holds text, and that the shrink loop cannot get stuck (Inv_Alloc); non-trivial = Ok with at least one vertical bar; distinct by sha256(runs)',
         assumptions=['separation (iii) is checked between horizontally adjacent non-empty cells'],
     ),
+    'C10': dict(
+        fams=[('c10', dict(quick=2500, thorough=50000), {})],
+        mc=[MC_API],
+        model_ok=False,
+        nontrivial=lambda rec: len({(s['op'], s['route']) for s in rec.get('hist', []) if s['op'] in ('oneshot', 'render')}) >= 3,
+        rule='MC: every history of <= MaxOps API calls (one-shot string/lines[/coloured], parse_html, dom_to_render_tree, clone, render_to_string/lines[/coloured] consuming the tree) over 2 documents and widths {0, 3, 9}; each emitted history is replayed call by call on the real API and compared with the specification after every call; random: histories of 4..14 calls over 1-2 grammar documents, 2-4 widths (repeated, out of order, failing ones in between), all decorators and option mixes; non-trivial = at least three distinct (call kind, route) pairs produce a rendering; distinct by sha256(history)',
+        assumptions=['the colour map of the coloured routes is the identity', 'lines routes are compared after joining the tagged strings of each line'],
+    ),
     'C03': dict(
         fams=[('c03', dict(quick=3000, thorough=60000), {})],
         mc=[MC_WRAP_MARKS, MC_BLOCK, MC_TABLE],
@@ -149,6 +159,10 @@ def sample_of(case, rec):
         s['w'] = r0.get('w', r0.get('wx'))
         s['cfg'] = r0.get('cfg')
         s['n_runs'] = len(case['runs'])
+    if case.get('hist'):
+        s['docs'] = [d[:200] for d in case.get('docs', [])]
+        s['cfg'] = case.get('cfg')
+        s['history'] = [dict(op=h['op'], w=h.get('w'), route=h.get('route'), result=st['res']['k']) for h, st in zip(case['hist'], rec.get('hist', []))]
     if rec.get('runs'):
         res = rec['runs'][0]['res']
         s['result'] = res['k']
@@ -219,6 +233,14 @@ def run_check(prop, tier, seed, t0, no_mc=False):
     drift = []
     n_pred = 0
     for c, r in zip(cases, recs):
+        predh = (c.get('meta') or {}).get('predh')
+        if predh is not None and r.get('hist') is not None:
+            n_pred += 1
+            for pr, st in zip(predh, r['hist']):
+                if pr['k'] != st['res']['k'] or (pr['k'] == 'ok' and pr['lines'] != st['res']['lines']):
+                    drift.append(c['id'])
+                    break
+            continue
         pred = (c.get('meta') or {}).get('pred')
         if pred is not None and r.get('runs'):
             n_pred += 1
